@@ -288,6 +288,14 @@ func c11Judge(c *Ctx, v lexVariant, g *lexGram, gp, twin *GenParser, inputs []le
 	if ruleG != nil {
 		rspace, _ = spaceSet(ruleG.G)
 	}
+	// the rules themselves, without the grammar compiler
+	ref, refErr := buildLexRef(g)
+	if refErr != nil || !eoiFinalGo(ref.t) {
+		ref = nil
+		c.Count("rule-level reference: not applicable ({eoi} or rules rejected by lex.Compile)")
+	} else {
+		c.Count("rule-level reference: compared")
+	}
 	for i, in := range inputs {
 		seq, ok := parseSeq(outs[i])
 		desc := fmt.Sprintf("grammar:\n%s\nstate=%d input=%q", gp.TM, in.State, in.Text)
@@ -297,6 +305,29 @@ func c11Judge(c *Ctx, v lexVariant, g *lexGram, gp, twin *GenParser, inputs []le
 		}
 		if msg := checkPositions(in.Text, untilEOI(seq), o.TokenLine, o.TokenColumn, v.ColFix); msg != "" {
 			c.Violate("token position: "+msg, desc)
+		}
+		if ref != nil {
+			want := ref.tokenize(in.State, in.Text, len(in.Text)+3)
+			got := untilEOI(seq)
+			same := len(got) == len(want)
+			var gs []string
+			for k, t := range got {
+				name := "?"
+				if t.Tok >= 0 && t.Tok < len(gp.G.Syms) {
+					name = gp.G.Syms[t.Tok].Name
+				}
+				gs = append(gs, fmt.Sprintf("%s[%d,%d)", name, t.S, t.E))
+				if same && (want[k].Name != name || want[k].S != t.S || want[k].E != t.E) {
+					same = false
+				}
+			}
+			if !same {
+				var ws []string
+				for _, t := range want {
+					ws = append(ws, fmt.Sprintf("%s[%d,%d)", t.Name, t.S, t.E))
+				}
+				c.Violate(fmt.Sprintf("generated lexer returns %s; the lexer rules (each lexeme one lex.Rule in its start conditions, longest match, priority, keyword over its class rule) specify %s", strings.Join(gs, " "), strings.Join(ws, " ")), desc)
+			}
 		}
 		if twin != nil {
 			tseq, _ := parseSeq(twinOuts[i])
